@@ -383,6 +383,9 @@ class TestCase(unittest.TestCase):
         self.__exception_handlers.append(handler)
 
     def _add_reason(self, reason):
+        # The reason only has to support being cast to text (see skipTest).
+        if not isinstance(reason, str):
+            reason = str(reason)
         self.addDetail("reason", content.text_content(reason))
 
     def assertEqual(self, expected, observed, message=""):
